@@ -162,7 +162,7 @@ inline std::vector<double> gen_weights(int m, WDom dom, int tie_bias, bool int_s
     }
     // exact domain
     int pal;
-    if (coin(tie_bias)) pal = pick(0, 2); else pal = pick(3, int_safe ? 5 : 7);
+    if (coin(tie_bias)) pal = pick(0, 3) == 3 ? 8 : pick(0, 2); else pal = pick(3, int_safe ? 5 : 7);
     for (int i = 0; i < m; i++) {
         double x = 1;
         switch (pal) {
@@ -174,6 +174,7 @@ inline std::vector<double> gen_weights(int m, WDom dom, int tie_bias, bool int_s
             case 5: x = (double) (1 << pick(0, 10)); break;
             case 6: x = std::ldexp((double) pick(1, 4096), -pick(0, 10)); break;  // dyadic
             case 7: x = (double) pick(1, 1 << 30); break;
+            case 8: x = pick(1, 4); break;
         }
         w[i] = x;
     }
